@@ -26,6 +26,18 @@ CHECKS = {
    technique="deterministic simulation: real threads under a seeded baton scheduler (sys.settrace line pre-emption), seeded search over schedules, per-call oracle from the tree's own sequential runs",
    text="Seeded exploration of thread interleavings at athlib source-line granularity (<=3 forced pre-emptions, 2-3 threads, first-call / warmed-up / cache-at-limit base states) over the public scoring, age-grading and validation calls; every call's outcome must be one it has in some call-atomic sequential order of the same tree. Sampling, not proof: quick ~3e4 schedules over 1400 scenarios, thorough ~7.7e5 over 24000; evidence reports distinct interleavings reached and where switches landed.",
    note="Trusts CPython's line tracing and fork() as a fresh process; pre-emption only at athlib lines (not inside jsonschema/stdlib or within a line); the oracle is the same tree run sequentially, so purely sequential bugs are invisible here."),
+ "C02": dict(engine="hjsim", design_ref="DESIGN.md 4.3-4.4",
+   technique="deterministic simulation: seeded multi-actor histories (officials, athletes, heckler issuing rule-violating requests) against an executable reference model; refusal atomicity by before/after snapshots",
+   text="Seeded exploration of call histories on one competition object (1-4 athletes, <=4+3 heights quick, <=8+6 thorough, <=140/250 calls; scripted competitions with a heckler, and free random walks over the whole alphabet). After every call: accepted <=> the rule-text model says legal; a refusal is a RuleViolation and leaves state, heights, cards, bests, places, log and trials bit-identical; an acceptance is logged exactly once and shows on the card; the state only moves forward. Sampling, not proof (quick 2.4e5 histories, thorough 6e6).",
+   note="Trusts the reference model (simkit/hjmodel.py, ~200 lines, written from the rule text; cases the text leaves open are tolerated either way) and reads the competition phase from the implementation, validating it with necessary conditions only."),
+ "C03": dict(engine="hjsim", design_ref="DESIGN.md 4.6",
+   technique="deterministic simulation: seeded complete competitions with scripted ties and jump-offs; places and bests checked against countback recomputed from the result cards alone",
+   text="Seeded exploration of complete competitions (2-4 athletes, shared scripts to provoke countback ties, well-formed jump-offs with the bar raised, repeated or lowered, retirements). Bests are checked after every call; whenever the state is finished/won/drawn the places must equal the competition ranking computed from the cards (three countback levels), jump-off participants must stay ahead of non-participants with the survivor first, a tie for first may not stand in 'finished'; jump-off entry and later re-instatements are cross-checked with the countback tie set / the round bookkeeping. Sampling, not proof (quick 2.4e5 competitions, thorough 6e6).",
+   note="Countback oracle and jump-off bookkeeping are the model's; jump-offs with passes or skipped attempts and competitions where nobody cleared anything are followed but not judged (text silent)."),
+ "C08": dict(engine="hjsim", design_ref="DESIGN.md 4.5",
+   technique="deterministic simulation with crash/recover fault injection: rebuild from the action log (then lock-step shadow) or from the exported card at seeded points, and seeded re-scheduling of the jumping order",
+   text="Seeded histories (as C02, heckled) with injected recoveries: from_actions() replicas must equal the original snapshot and stay equal call for call for the rest of the run; to_matrix()/from_matrix() round trips must reproduce state, heights, bests, places and cards modulo pass marks; the accepted history re-executed under 4 fixed adversarial and several seeded random per-height interleavings must be accepted call for call and end in the same cards, state, bests and places. Sampling, not proof (quick 8e4 histories with ~1e6 recoveries/re-schedules, thorough 2e6).",
+   note="Equality is over public observables only (state, heights, bar, log, trials, cards, bests, places); private flags are compared indirectly through the lock-step continuation."),
 }
 
 def main():
